@@ -5,7 +5,7 @@
     Case files are large (tens of thousands of lists), so the case syntax
     avoids notations and implicit arguments: [K bf bb ef eb tl] is the chunk
     ((bf,bb),(ef,eb)) followed by tl. *)
-From Hts Require Import Base.Prim Base.Chunks Generated Model.Strategy.
+From Hts Require Import Base.Prim Base.Chunks Generated Model.Strategy Model.StrategySpec.
 Open Scope Z_scope.
 
 Inductive cl := E | K (bf bb ef eb : Z) (t : cl).
@@ -139,8 +139,6 @@ Definition c17_agree (c : c17case) : bool :=
 (** * The strategies as the property statement names them, run on the
       translation generated from the Go source.  The index loops take a fuel
       argument; the length of the list is always enough (Proofs/StrategyLoop.v). *)
-Inductive strategy := Identity | Adjacent | Squash | Compressor (near : Z).
-
 Definition run_strategy_fuel (s : strategy) (fuel : nat) (l : list chunk) : outcome (list chunk) :=
   match s with
   | Identity => bgzfindex_identity l
